@@ -8,7 +8,7 @@ require (
 	golang.org/x/text v0.21.0
 )
 
-replace github.com/google/safehtml => /tmp/evalrepo
+replace github.com/google/safehtml => /repo
 
 // golang.org/x/net (its html tokenizer is the differential target of the HTOK stream, -tags htok only)
 // requires newer x/text, x/crypto, x/term than the offline module cache holds; none of their packages is
